@@ -18,7 +18,7 @@ import (
 	"net/http"
 	"os"
 	"os/exec"
-	"reflect"
+	"runtime"
 	"strconv"
 	"strings"
 	"sync"
@@ -50,10 +50,10 @@ func loadWsFlags() wsFlags {
 
 type wsEv struct {
 	E   string `json:"e"`
-	I   int    `json:"i,omitempty"`
-	C   int    `json:"c,omitempty"`
+	I   int    `json:"i"`
+	C   int    `json:"c"`
 	M   string `json:"m,omitempty"`
-	P   int    `json:"p,omitempty"`
+	P   int    `json:"p"`
 	Dec *bool  `json:"dec,omitempty"`
 }
 
@@ -72,6 +72,7 @@ type mSub struct {
 }
 type mWorld struct {
 	Frames        [][]any `json:"frames"`
+	Written       [][]any `json:"written"`
 	Subs          []mSub  `json:"subs"`
 	IsClosing     bool    `json:"isClosing"`
 	ConnCloses    int     `json:"connCloses"`
@@ -105,7 +106,18 @@ func callState(c []any) string {
 
 var errWsInjected = errors.New("injected connection fault")
 
+func wsGid() string {
+	var buf [64]byte
+	n := runtime.Stack(buf[:], false)
+	f := strings.Fields(string(buf[:n]))
+	if len(f) > 1 {
+		return f[1]
+	}
+	return "?"
+}
+
 type wsReport struct {
+	gid   string
 	who   string // "reader" | "api" | "start"
 	kind  string // write | read | fwd | ret | exit | panic
 	frame []any  // for write: [type, subIndex]
@@ -132,6 +144,7 @@ type wsCtl struct {
 	mu       sync.Mutex
 	reports  chan wsReport
 	frames   [][]any
+	written  [][]any  // frames whose write returned nil
 	ids      []string // sub index -> uuid (from subscribe frames)
 	connCloses int
 	closed   bool
@@ -193,6 +206,9 @@ func (c wsConn) WriteMessage(mt int, data []byte) error {
 	if ok := <-gate; !ok {
 		return errWsInjected
 	}
+	k.mu.Lock()
+	k.written = append(k.written, fr)
+	k.mu.Unlock()
 	return nil
 }
 
@@ -206,7 +222,7 @@ func (c wsConn) ReadMessage() (int, []byte, error) {
 	gate := make(chan wsRead, 1)
 	k.pendingRead = gate
 	k.mu.Unlock()
-	k.reports <- wsReport{who: "reader", kind: "read", rgate: gate}
+	k.reports <- wsReport{who: "reader", kind: "read", rgate: gate, gid: wsGid()}
 	r := <-gate
 	return 1, r.data, r.err
 }
@@ -248,17 +264,60 @@ type wsRun struct {
 	errRecv  int
 	panics   []string
 	nSubscribed int
+	srvCompleted map[int]bool // a `complete` for this sub was handed to the reader earlier
+	readerGid string
+	herrGate chan struct{}
+	endMismatch string
+	mustDeliver map[int][]int // nexts handed to the reader while nothing had started to end the subscription
+	inflightAfterEnd bool      // the `next` now being delivered was handed over after its subscription had ended
+}
+
+// endStarted: an Unsubscribe(i) or a Close has been called, or a server complete for i was sent
+func (r *wsRun) endStarted(i int) bool {
+	if r.srvCompleted[i] {
+		return true
+	}
+	for ci, k := range r.callKind {
+		if (k == "unsubscribe" && r.callSub[ci] == i) || k == "close" {
+			return true
+		}
+	}
+	return false
+}
+
+// subEnded: as far as the application/server can tell, subscription i has ended already
+func (r *wsRun) subEnded(i int) bool {
+	if r.srvCompleted[i] {
+		return true
+	}
+	for ci, k := range r.callKind {
+		if k == "unsubscribe" && r.callSub[ci] == i && r.callState[ci] == "ret:true" {
+			return true
+		}
+		if k == "close" && strings.HasPrefix(r.callState[ci], "ret") {
+			return true
+		}
+	}
+	return false
 }
 
 func newWsRun() *wsRun {
 	k := &wsCtl{reports: make(chan wsReport, 64)}
-	return &wsRun{k: k, subIDs: map[int]string{}, reader: "running", cur: -1}
+	return &wsRun{k: k, subIDs: map[int]string{}, reader: "running", cur: -1, srvCompleted: map[int]bool{}}
 }
 
-const wsWait = 10 * time.Second
+const wsWait = 3 * time.Second
 
 // pump processes reports until `done()` holds or the timeout expires.
+var wsPumpWaited time.Duration
+
 func (r *wsRun) pump(done func() bool, timeout time.Duration) bool {
+	t0 := time.Now()
+	defer func() {
+		if d := time.Since(t0); d > 20*time.Millisecond && os.Getenv("HX_WS_DEBUG") != "" {
+			fmt.Fprintf(os.Stderr, "pump waited %v (timeout %v) reader=%s calls=%v\n", d, timeout, r.reader, r.callState)
+		}
+	}()
 	deadline := time.After(timeout)
 	for {
 		if done() {
@@ -291,10 +350,21 @@ func (r *wsRun) apply(rep wsReport) {
 	case "read":
 		r.reader = "read"
 		r.readGate = rep.rgate
+		r.readerGid = rep.gid
 	case "fwd":
 		r.reader = fmt.Sprintf("send:%d:%d", rep.sub, rep.p)
 		r.fwdGate = rep.fgate
+	case "herr":
+		if rep.gid != r.readerGid {
+			close(rep.fgate)
+			return
+		}
+		r.reader = "herrSend"
+		r.herrGate = rep.fgate
 	case "exit":
+		if rep.gid != r.readerGid {
+			return // a reader left over from an earlier schedule in this process
+		}
 		r.reader = "done"
 	case "ret":
 		r.callState[rep.call] = "ret:" + strconv.FormatBool(rep.ok)
@@ -314,7 +384,12 @@ func (r *wsRun) apply(rep wsReport) {
 func (r *wsRun) start() error {
 	graphql.VerifHook = func(point string) {
 		if point == "listen.exit" {
-			r.k.reports <- wsReport{who: "reader", kind: "exit"}
+			r.k.reports <- wsReport{who: "reader", kind: "exit", gid: wsGid()}
+		}
+		if point == "handleErr.send" {
+			gate := make(chan struct{})
+			r.k.reports <- wsReport{who: "reader", kind: "herr", gid: wsGid(), fgate: gate}
+			<-gate
 		}
 	}
 	r.client = graphql.NewClientUsingWebSocket("ws://h.example/q", wsDialer{r.k})
@@ -327,7 +402,9 @@ func (r *wsRun) start() error {
 		ch, err := r.client.Start(context.Background())
 		res <- sr{ch, err}
 	}()
-	// handshake: init write, ack read
+	// handshake: init write, ack read (exactly one read belongs to Start; a later one is the
+	// reader's first read, which may be reported before Start's return value is seen)
+	acked := false
 	for {
 		select {
 		case rep := <-r.k.reports:
@@ -335,7 +412,12 @@ func (r *wsRun) start() error {
 			case "write":
 				rep.wgate <- true
 			case "read":
-				rep.rgate <- wsRead{data: []byte(`{"type":"connection_ack"}`)}
+				if !acked {
+					acked = true
+					rep.rgate <- wsRead{data: []byte(`{"type":"connection_ack"}`)}
+				} else {
+					r.apply(rep)
+				}
 			}
 		case s := <-res:
 			if s.err != nil {
@@ -453,12 +535,20 @@ func (r *wsRun) exec(e wsEv) error {
 		var data string
 		switch e.M {
 		case "next":
+			r.inflightAfterEnd = r.subEnded(e.I)
+			if !r.endStarted(e.I) && (e.Dec == nil || *e.Dec) {
+				if r.mustDeliver == nil {
+					r.mustDeliver = map[int][]int{}
+				}
+				r.mustDeliver[e.I] = append(r.mustDeliver[e.I], e.P)
+			}
 			pl := fmt.Sprintf(`{"data":{"p":%d}}`, e.P)
 			if e.Dec != nil && !*e.Dec {
 				pl = `[1,2]`
 			}
 			data = fmt.Sprintf(`{"type":"next","id":%q,"payload":%s}`, id, pl)
 		case "complete":
+			r.srvCompleted[e.I] = true
 			data = fmt.Sprintf(`{"type":"complete","id":%q}`, id)
 		case "other":
 			data = fmt.Sprintf(`{"type":"error","id":%q,"payload":[{"message":"bad"}]}`, id)
@@ -492,8 +582,14 @@ func (r *wsRun) exec(e wsEv) error {
 			return errors.New("no delivery on data channel")
 		}
 	case "rstep":
-		// only used to let a parked delivery run into a closed channel
-		if r.fwdGate != nil {
+		// release the reader from a yield point: the error-channel send, or a parked delivery
+		// that will run into a closed channel
+		if r.herrGate != nil {
+			g := r.herrGate
+			r.herrGate = nil
+			r.reader = "running"
+			close(g)
+		} else if r.fwdGate != nil {
 			g := r.fwdGate
 			r.fwdGate = nil
 			r.reader = "running"
@@ -527,18 +623,31 @@ type wsOutcome struct {
 func wsChild(c *Ctx, from, to int, faults bool) {
 	w := bufio.NewWriter(os.Stdout)
 	flags := loadWsFlags()
+	mism := 0
 	for idx := from; idx < to; idx++ {
 		fmt.Fprintf(w, "BEGIN %d\n", idx)
 		w.Flush()
+		if mism >= 4 {
+			fmt.Fprintf(w, "END %s\n", `{"idx":`+strconv.Itoa(idx)+`,"key":"skipped-after-divergences"}`)
+			w.Flush()
+			continue
+		}
 		out := wsOneSchedule(c, idx, flags, faults, nil)
+		if out.Mismatch != "" {
+			mism++
+		}
 		b, _ := json.Marshal(out)
 		fmt.Fprintf(w, "END %s\n", b)
 		w.Flush()
 	}
 }
 
+// closeOrder: the order in which this run's Close visits subscription ids (Go map iteration),
+// learnt from the frames the implementation writes.
+var wsCloseOrder []int
+
 func wsModel(c *Ctx, flags wsFlags, evs []wsEv) (*mWorld, int) {
-	m := c.Model(map[string]any{"op": "ws.run", "flags": flags, "evs": evs})
+	m := c.Model(map[string]any{"op": "ws.run", "flags": flags, "evs": evs, "closeOrder": wsCloseOrder})
 	var mw mWorld
 	b, _ := json.Marshal(m["world"])
 	json.Unmarshal(b, &mw)
@@ -554,13 +663,14 @@ func wsModel(c *Ctx, flags wsFlags, evs []wsEv) (*mWorld, int) {
 func wsOneSchedule(c *Ctx, idx int, flags wsFlags, faults bool, fixed []wsEv) wsOutcome {
 	rng := c.Rng(map[bool]string{true: "wsF", false: "ws"}[faults], idx)
 	out := wsOutcome{Idx: idx, Faults: faults}
+	wsCloseOrder = []int{}
 	r := newWsRun()
 	if err := r.start(); err != nil {
 		out.Mismatch = "start failed: " + err.Error()
 		return out
 	}
 	viol := func(prop, class, what string) { out.Violations = append(out.Violations, [3]string{prop, class, what}) }
-	var evs []wsEv
+	evs := []wsEv{}
 	mw, _ := wsModel(c, flags, evs)
 	unsubbed := map[int]bool{}
 	closed := false
@@ -579,15 +689,25 @@ func wsOneSchedule(c *Ctx, idx int, flags wsFlags, faults bool, fixed []wsEv) ws
 				cands = append(cands, e)
 			}
 		}
-		if !closed && nsub < 3 {
+		// C15 quantifies over API call *sequences*: with fault injection on, a new API call
+		// starts only when the previous ones have returned (the reader stays concurrent)
+		apiBusy := false
+		if faults {
+			for _, cs := range mw.Calls {
+				if len(cs) > 0 && cs[0] != "ret" {
+					apiBusy = true
+				}
+			}
+		}
+		if !closed && nsub < 3 && !apiBusy {
 			add(wsEv{E: "subscribe"}, 3)
 		}
 		for i := 0; i < nsub; i++ {
-			if _, known := r.subIDs[i]; known && !unsubbed[i] && !closed {
+			if _, known := r.subIDs[i]; known && !unsubbed[i] && !closed && !apiBusy {
 				add(wsEv{E: "unsubscribe", I: i}, 2)
 			}
 		}
-		if !closed && nsub > 0 {
+		if !closed && nsub > 0 && !apiBusy {
 			add(wsEv{E: "close"}, 1+steps/8)
 		}
 		for ci, cs := range mw.Calls {
@@ -625,10 +745,13 @@ func wsOneSchedule(c *Ctx, idx int, flags wsFlags, faults bool, fixed []wsEv) ws
 			if i < nsub && mw.Subs[i].Closes == 0 {
 				add(wsEv{E: "recvData", I: i}, 6)
 			} else {
-				add(wsEv{E: "rstep"}, 6)
+				add(wsEv{E: "rstep"}, 1)
 			}
 		}
-		if rs == "herrSend" || mw.ErrQueued > 0 {
+		if rs == "herrSend" {
+			add(wsEv{E: "rstep"}, 4)
+		}
+		if mw.ErrQueued > 0 {
 			add(wsEv{E: "recvErr"}, 3)
 		}
 		if len(cands) == 0 {
@@ -665,7 +788,12 @@ func wsOneSchedule(c *Ctx, idx int, flags wsFlags, faults bool, fixed []wsEv) ws
 			break
 		}
 		mw = nmw
-		if msg := r.sync(mw); msg != "" {
+		msg := r.sync(mw)
+		for tries := 0; msg != "" && tries < 4 && r.learnCloseOrder(mw); tries++ {
+			mw, _ = wsModel(c, flags, evs)
+			msg = r.sync(mw)
+		}
+		if msg != "" {
 			out.Mismatch = fmt.Sprintf("after %s: %s", e, msg)
 			break
 		}
@@ -688,13 +816,18 @@ func wsOneSchedule(c *Ctx, idx int, flags wsFlags, faults bool, fixed []wsEv) ws
 		case strings.Contains(p, "close of closed channel"):
 			cls = "panic:close-of-closed-channel"
 		case strings.Contains(p, "send on closed channel"):
-			cls = "panic:send-on-closed-channel"
+			cls = "panic:send-on-closed-channel:" + map[bool]string{true: "next-after-end", false: "ended-during-delivery"}[r.inflightAfterEnd]
 		}
 		viol("C13", cls, "goroutine panicked: "+p)
 	}
-	if out.Mismatch == "" && len(r.panics) == 0 {
+	if len(r.panics) == 0 {
+		hadMismatch := out.Mismatch != ""
 		r.finish(mw, faults, closed, viol, serverNexts, unsubbed)
+		if !hadMismatch && r.endMismatch != "" {
+			out.Mismatch = "end state: " + r.endMismatch
+		}
 	}
+	r.cleanup()
 	return out
 }
 
@@ -709,6 +842,9 @@ func (r *wsRun) sync(mw *mWorld) string {
 	match := func() bool {
 		if wantPanic {
 			return len(r.panics) > 0
+		}
+		if r.orderDiverges(mw) {
+			return true // resolved by the caller (learnCloseOrder), no point in waiting
 		}
 		if len(r.panics) > 0 {
 			return true // reported below
@@ -730,7 +866,7 @@ func (r *wsRun) sync(mw *mWorld) string {
 			}
 		}
 		switch {
-		case wantReader == "read" || wantReader == "done" || strings.HasPrefix(wantReader, "send:"):
+		case wantReader == "read" || wantReader == "done" || wantReader == "herrSend" || strings.HasPrefix(wantReader, "send:"):
 			if r.reader != wantReader {
 				return false
 			}
@@ -738,6 +874,9 @@ func (r *wsRun) sync(mw *mWorld) string {
 		return true
 	}
 	ok := r.pump(match, wsWait)
+	if !wantPanic && r.orderDiverges(mw) {
+		return "Close visits the subscriptions in another order than the model assumed"
+	}
 	if len(r.panics) > 0 && !wantPanic {
 		return "" // a panic the model does not predict: reported as a violation by the caller, and as mismatch:
 	}
@@ -751,9 +890,6 @@ func (r *wsRun) sync(mw *mWorld) string {
 			blocked = true
 		}
 	}
-	if wantReader == "herrSend" {
-		blocked = true
-	}
 	if blocked {
 		r.pump(func() bool { return false }, 30*time.Millisecond)
 		for i, ws := range want {
@@ -761,11 +897,128 @@ func (r *wsRun) sync(mw *mWorld) string {
 				return fmt.Sprintf("call %d: model says blocked on the mutex, implementation is %s", i, r.callState[i])
 			}
 		}
-		if wantReader == "herrSend" && r.reader != "running" {
-			return "reader: model says blocked in the error-channel send, implementation is " + r.reader
-		}
 	}
 	return ""
+}
+
+// learnCloseOrder: if a Close call of the implementation is writing `complete k` where the model
+// expected another id, record k as the next id of this run's map-iteration order.
+func (r *wsRun) orderDiverges(mw *mWorld) bool {
+	for ci, k := range r.callKind {
+		if k != "close" || ci >= len(mw.Calls) {
+			continue
+		}
+		rs := r.callState[ci]
+		ms := callState(mw.Calls[ci])
+		if strings.HasPrefix(rs, "inWrite:complete:") && strings.HasPrefix(ms, "inWrite:complete:") && rs != ms {
+			return true
+		}
+	}
+	return false
+}
+
+func (r *wsRun) learnCloseOrder(mw *mWorld) bool {
+	for ci, k := range r.callKind {
+		if k != "close" || ci >= len(mw.Calls) {
+			continue
+		}
+		rs := r.callState[ci]
+		ms := callState(mw.Calls[ci])
+		if strings.HasPrefix(rs, "inWrite:complete:") && strings.HasPrefix(ms, "inWrite:complete:") && rs != ms {
+			var id int
+			fmt.Sscanf(rs, "inWrite:complete:%d", &id)
+			for _, x := range wsCloseOrder {
+				if x == id {
+					return false
+				}
+			}
+			wsCloseOrder = append(wsCloseOrder, id)
+			return true
+		}
+	}
+	return false
+}
+
+// cleanup releases every park point and drains every channel so that the goroutines of this
+// run finish (or stay parked forever) before the next schedule starts in the same process.
+func (r *wsRun) cleanup() {
+	stop := make(chan struct{})
+	for _, ch := range r.chans {
+		go func(ch chan wsItem) {
+			for {
+				select {
+				case _, ok := <-ch:
+					if !ok {
+						return
+					}
+				case <-stop:
+					return
+				}
+			}
+		}(ch)
+	}
+	go func() {
+		for {
+			select {
+			case _, ok := <-r.errChan:
+				if !ok {
+					return
+				}
+			case <-stop:
+				return
+			}
+		}
+	}()
+	r.k.mu.Lock()
+	r.k.closed = true
+	pr := r.k.pendingRead
+	r.k.pendingRead = nil
+	r.k.mu.Unlock()
+	if pr != nil {
+		select {
+		case pr <- wsRead{err: errWsInjected}:
+		default:
+		}
+	}
+	if r.fwdGate != nil {
+		close(r.fwdGate)
+		r.fwdGate = nil
+	}
+	if r.herrGate != nil {
+		close(r.herrGate)
+		r.herrGate = nil
+	}
+	for i, g := range r.callGate {
+		if g != nil {
+			g <- false
+			r.callGate[i] = nil
+		}
+	}
+	deadline := time.After(150 * time.Millisecond)
+	for r.reader != "done" && r.reader != "panic" {
+		select {
+		case rep := <-r.k.reports:
+			switch rep.kind {
+			case "write":
+				rep.wgate <- false
+			case "read":
+				rep.rgate <- wsRead{err: errWsInjected}
+			case "fwd", "herr":
+				close(rep.fgate)
+			case "exit":
+				if rep.gid == r.readerGid {
+					r.reader = "done"
+				}
+			}
+		case <-deadline:
+			if os.Getenv("HX_WS_DEBUG") != "" {
+				fmt.Fprintln(os.Stderr, "cleanup: reader still", r.reader, "calls", r.callState)
+			}
+			close(stop)
+			return
+		}
+	}
+	close(stop)
 }
 
 func chanClosed(ch chan wsItem) (closed bool, extra []int) {
@@ -784,6 +1037,22 @@ func chanClosed(ch chan wsItem) (closed bool, extra []int) {
 
 // finish: end-of-schedule phases and the properties' oracles.
 func (r *wsRun) finish(mw *mWorld, faults, closed bool, viol func(prop, class, what string), serverNexts map[int][]int, unsubbed map[int]bool) {
+	// The yield point before the error-channel send is the harness's own: release it and let
+	// API calls that were waiting for the mutex finish before judging them.
+	if r.herrGate != nil {
+		close(r.herrGate)
+		r.herrGate = nil
+		r.reader = "running"
+		r.pump(func() bool { return r.reader != "running" }, 300*time.Millisecond)
+		r.pump(func() bool {
+			for _, s := range r.callState {
+				if s == "running" {
+					return false
+				}
+			}
+			return true
+		}, 300*time.Millisecond)
+	}
 	// Phase A (C13): all pending connection writes complete; the application does NOT receive.
 	// Every API call must return.
 	for round := 0; round < 20; round++ {
@@ -821,7 +1090,11 @@ func (r *wsRun) finish(mw *mWorld, faults, closed bool, viol func(prop, class, w
 		}
 	}
 	for _, p := range r.panics {
-		viol("C13", "panic:late", "goroutine panicked: "+p)
+		if strings.Contains(p, "close of closed channel") {
+			viol("C13", "panic:close-of-closed-channel", "goroutine panicked: "+p)
+		} else if !strings.Contains(p, "send on closed channel") {
+			viol("C13", "panic:other", "goroutine panicked: "+p)
+		}
 	}
 	// Phase B: the application drains what is pending; then the reader must be gone if the
 	// client was closed.
@@ -859,7 +1132,7 @@ func (r *wsRun) finish(mw *mWorld, faults, closed bool, viol func(prop, class, w
 	}
 	for _, p := range r.panics {
 		if strings.Contains(p, "send on closed channel") {
-			viol("C13", "panic:send-on-closed-channel", "goroutine panicked: "+p)
+			viol("C13", "panic:send-on-closed-channel:"+map[bool]string{true: "next-after-end", false: "ended-during-delivery"}[r.inflightAfterEnd], "goroutine panicked: "+p)
 		}
 	}
 	// C14: per subscription
@@ -878,11 +1151,21 @@ func (r *wsRun) finish(mw *mWorld, faults, closed bool, viol func(prop, class, w
 				}
 			}
 		}
-		// ended (Unsubscribe returned ok / Close returned ok / server complete processed) => closed
-		ended := false
-		if i < len(mw.Subs) {
-			ended = mw.Subs[i].Ended
+		// liveness: what was handed to the reader for a live, successfully subscribed id and
+		// never overtaken by an end must have been delivered once the application drained
+		subFailed := false
+		for ci, k := range r.callKind {
+			if k == "subscribe" && r.callSub[ci] == i && r.callState[ci] == "ret:false" {
+				subFailed = true
+			}
 		}
+		if !subFailed && !r.endStarted(i) && r.reader != "panic" {
+			md := r.mustDeliver[i]
+			if fmt.Sprint(md) != fmt.Sprint(got) && len(md) > 0 {
+				viol("C14", "next-not-delivered", fmt.Sprintf("sub %d: server sent %v while the subscription was live, application received %v", i, md, got))
+			}
+		}
+		// ended (Unsubscribe returned ok / Close returned ok / server complete processed) => closed
 		unsubOK := false
 		for ci, k := range r.callKind {
 			if k == "unsubscribe" && r.callSub[ci] == i && r.callState[ci] == "ret:true" {
@@ -895,17 +1178,23 @@ func (r *wsRun) finish(mw *mWorld, faults, closed bool, viol func(prop, class, w
 				closeOK = true
 			}
 		}
-		registered := i < len(mw.Subs) && mw.Subs[i].Registered
+		registered := false
+		for ci, k := range r.callKind {
+			if k == "subscribe" && r.callSub[ci] == i && r.callState[ci] == "ret:true" {
+				registered = true
+			}
+		}
 		if (unsubOK || (closeOK && registered)) && !cl {
 			viol("C14", "channel-not-closed-after-end", fmt.Sprintf("sub %d: subscription ended (unsubscribe ok=%v, close ok=%v) but its channel is still open", i, unsubOK, closeOK))
 		}
-		_ = ended
 	}
 	// C15: wire protocol
 	r.k.mu.Lock()
-	frames := append([][]any{}, r.k.frames...)
+	frames := append([][]any{}, r.k.written...)
+	handed := append([][]any{}, r.k.frames...)
 	connCloses := r.k.connCloses
 	r.k.mu.Unlock()
+	_ = handed
 	if msg := wsValidConversation(frames); msg != "" {
 		cls := "invalid-conversation:" + strings.SplitN(msg, ":", 2)[0]
 		viol("C15", cls, msg+" — frames "+fmt.Sprint(frames))
@@ -943,6 +1232,43 @@ func (r *wsRun) finish(mw *mWorld, faults, closed bool, viol func(prop, class, w
 		}
 	}
 	// ---- end-state comparison with the model (history observables) ----
+	r.endMismatch = ""
+	if fmt.Sprint(handed) != fmt.Sprint(mwFrames(mw.Frames)) {
+		// the finish phase lets pending writes complete, which the model run does not include:
+		// compare the prefix the model knows about
+		mf := mwFrames(mw.Frames)
+		if len(handed) < len(mf) || fmt.Sprint(handed[:len(mf)]) != fmt.Sprint(mf) {
+			r.endMismatch = fmt.Sprintf("frames handed to the connection: impl %v, model %v", handed, mf)
+		}
+	}
+	for i := range r.chans {
+		if i < len(mw.Subs) {
+			md := mw.Subs[i].Delivered
+			got := r.delivered[i]
+			if len(got) < len(md) || fmt.Sprint(got[:len(md)]) != fmt.Sprint(md) {
+				r.endMismatch = fmt.Sprintf("sub %d delivered: impl %v, model %v", i, got, md)
+			}
+		}
+	}
+}
+
+func mwFrames(fs [][]any) [][]any {
+	out := [][]any{}
+	for _, f := range fs {
+		g := []any{f[0]}
+		if len(f) > 1 {
+			if n, ok := f[1].(float64); ok {
+				g = append(g, int(n))
+			} else if n, ok := f[1].(json.Number); ok {
+				x, _ := n.Int64()
+				g = append(g, int(x))
+			} else {
+				g = append(g, f[1])
+			}
+		}
+		out = append(out, g)
+	}
+	return out
 }
 
 // wsValidConversation checks the client side of graphql-transport-ws on a frame list.
@@ -1007,9 +1333,41 @@ func wsParent(c *Ctx, prop string) {
 		wsChild(c, from, to, os.Getenv("HX_WS_FAULTS") == "1")
 		os.Exit(0)
 	}
+	if sn := os.Getenv("HX_WS_STRESS"); sn != "" {
+		n, _ := strconv.Atoi(sn)
+		wsStressChild(c, n)
+		os.Exit(0)
+	}
+	if f := os.Getenv("HX_WS_REPLAYFILE"); f != "" {
+		// child mode: replay one recorded event list
+		var wrap struct {
+			Case struct {
+				Evs    []wsEv `json:"evs"`
+				Faults bool   `json:"faults"`
+			} `json:"case"`
+		}
+		b, _ := osReadFile(f)
+		json.Unmarshal(b, &wrap)
+		fmt.Println("BEGIN -1")
+		o := wsReplayFixed(c, wrap.Case.Evs, wrap.Case.Faults)
+		ob, _ := json.Marshal(o)
+		fmt.Printf("END %s\n", ob)
+		os.Exit(0)
+	}
 	if c.Replay != "" {
 		wsReplay(c, prop)
 		return
+	}
+	// corpus first: minimised past failures and hand-picked witnesses
+	files, _ := filepathGlob("/verif/harness/corpus/" + prop + "/*.json")
+	for _, extra := range []string{"C13", "C14", "C15"} {
+		if extra != prop {
+			more, _ := filepathGlob("/verif/harness/corpus/" + extra + "/*.json")
+			files = append(files, more...)
+		}
+	}
+	for _, f := range files {
+		wsRunReplayChild(c, prop, f)
 	}
 	n := c.N(600, 20000)
 	faults := prop == "C15"
@@ -1017,9 +1375,18 @@ func wsParent(c *Ctx, prop string) {
 	for from := 0; from < n; from += batch {
 		to := min(from+batch, n)
 		wsRunChildren(c, prop, from, to, faults)
+		// the verdict is settled once several divergences have been recorded; waiting out
+		// more of them (each costs a timeout) adds nothing
+		if c.Res.Distribution["finding:mismatch:ws-model"] >= 6 || c.Res.Distribution["unexpected-violations"] >= 12 {
+			c.Res.Notes = append(c.Res.Notes, fmt.Sprintf("stopped early after %d schedules: enough divergences recorded", to))
+			break
+		}
 	}
 	if prop == "C15" {
 		wsStartFaults(c)
+	}
+	if prop == "C13" {
+		wsStress(c, c.N(3000, 300000))
 	}
 }
 
@@ -1050,6 +1417,10 @@ func wsRunChildren(c *Ctx, prop string, from, to int, faults bool) {
 			}
 		}
 		cmd.Wait()
+		if cmd.ProcessState != nil && cmd.ProcessState.ExitCode() == 3 {
+			fmt.Fprintln(os.Stderr, "hx: ws child reported a machinery failure:", firstLine(stderr.String()))
+			os.Exit(3)
+		}
 		if done >= to-1 {
 			return
 		}
@@ -1072,6 +1443,44 @@ func wsRunChildren(c *Ctx, prop string, from, to int, faults bool) {
 				Case: map[string]any{"schedule_index": cur, "faults": faults, "seed": c.Seed, "note": "replay regenerates the schedule from (seed, index)"}})
 		}
 		from = cur + 1
+	}
+}
+
+func wsRunReplayChild(c *Ctx, prop, file string) {
+	cmd := exec.Command(os.Args[0], os.Args[1:]...)
+	cmd.Env = append(os.Environ(), "HX_WS_REPLAYFILE="+file)
+	var stderr strings.Builder
+	cmd.Stderr = &stderr
+	outb, _ := cmd.Output()
+	got := false
+	for _, line := range strings.Split(string(outb), "\n") {
+		if strings.HasPrefix(line, "END ") {
+			var o wsOutcome
+			if json.Unmarshal([]byte(line[4:]), &o) == nil {
+				o.Key = "corpus:" + file
+				wsRecord(c, prop, o)
+				got = true
+			}
+		}
+	}
+	c.Res.Count("corpus")
+	if !got {
+		if cmd.ProcessState != nil && cmd.ProcessState.ExitCode() == 3 {
+			fmt.Fprintln(os.Stderr, "hx: ws child reported a machinery failure:", firstLine(stderr.String()))
+			os.Exit(3)
+		}
+		msg := firstPanicLine(stderr.String())
+		cls := "panic:crash"
+		switch {
+		case strings.Contains(msg, "close of closed channel"):
+			cls = "panic:close-of-closed-channel"
+		case strings.Contains(msg, "send on closed channel"):
+			cls = "panic:send-on-closed-channel"
+		}
+		c.Res.Eval()
+		if prop == "C13" || prop == "C14" {
+			c.Res.Add(proto.Finding{Kind: "violation", Class: cls, What: "process crashed while replaying corpus case " + file + ": " + msg, Case: map[string]any{"corpus_file": file}})
+		}
 	}
 }
 
@@ -1102,7 +1511,13 @@ func wsRecord(c *Ctx, prop string, o wsOutcome) {
 		c.Res.Add(proto.Finding{Kind: "mismatch", Class: "ws-model", What: o.Mismatch, Case: cs})
 	}
 	for _, v := range o.Violations {
+		if v[0] == "C15" && !o.Faults {
+			continue // C15 quantifies over API call sequences; the concurrent schedules are not held to it
+		}
 		if v[0] == prop || (prop == "C14" && v[0] == "C13" && strings.HasPrefix(v[1], "panic:")) {
+			if !strings.Contains(v[1], "ended-during-delivery") {
+				c.Res.Count("unexpected-violations")
+			}
 			c.Res.Add(proto.Finding{Kind: "violation", Class: v[1], What: v[2], Case: cs})
 		}
 	}
@@ -1124,6 +1539,10 @@ func wsReplay(c *Ctx, prop string) {
 		c.Res.Notes = append(c.Res.Notes, "replay unreadable")
 		return
 	}
+	if len(wrap.Case.Evs) > 0 {
+		wsRunReplayChild(c, prop, c.Replay)
+		return
+	}
 	if len(wrap.Case.Evs) == 0 && wrap.Case.Index != nil {
 		wsRunChildren(c, prop, *wrap.Case.Index, *wrap.Case.Index+1, wrap.Case.Faults)
 		return
@@ -1136,6 +1555,7 @@ func wsReplay(c *Ctx, prop string) {
 func wsReplayFixed(c *Ctx, evs []wsEv, faults bool) wsOutcome {
 	flags := loadWsFlags()
 	out := wsOutcome{Idx: -1, Evs: evs, Faults: faults, Key: "replay"}
+	wsCloseOrder = []int{}
 	r := newWsRun()
 	if err := r.start(); err != nil {
 		out.Mismatch = "start failed: " + err.Error()
@@ -1150,8 +1570,15 @@ func wsReplayFixed(c *Ctx, evs []wsEv, faults bool) wsOutcome {
 		var dis int
 		mw, dis = wsModel(c, flags, evs[:i+1])
 		if dis >= 0 {
-			out.Mismatch = fmt.Sprintf("event %d (%s) is not enabled in the model", i, e)
-			return out
+			// a witness recorded on an earlier tree: the model of the present tree does not
+			// enable this event any more; the prefix that is enabled has been checked
+			out.Evs = evs[:i]
+			if i > 0 {
+				mw, _ = wsModel(c, flags, evs[:i])
+			} else {
+				mw = nil
+			}
+			break
 		}
 		if e.E == "server" && e.M == "next" && (e.Dec == nil || *e.Dec) {
 			serverNexts[e.I] = append(serverNexts[e.I], e.P)
@@ -1164,22 +1591,35 @@ func wsReplayFixed(c *Ctx, evs []wsEv, faults bool) wsOutcome {
 		}
 		if err := r.exec(e); err != nil {
 			out.Mismatch = fmt.Sprintf("event %s not executable on the implementation: %v", e, err)
-			return out
+			break
 		}
-		if msg := r.sync(mw); msg != "" {
+		msg := r.sync(mw)
+		for tries := 0; msg != "" && tries < 4 && r.learnCloseOrder(mw); tries++ {
+			mw, _ = wsModel(c, flags, evs[:i+1])
+			msg = r.sync(mw)
+		}
+		if msg != "" {
 			out.Mismatch = fmt.Sprintf("after %s: %s", e, msg)
-			return out
+			break
 		}
 		if len(r.panics) > 0 {
 			break
 		}
 	}
 	for _, p := range r.panics {
-		viol("C13", "panic:"+map[bool]string{true: "close-of-closed-channel", false: "send-on-closed-channel"}[strings.Contains(p, "close of closed")], "goroutine panicked: "+p)
+		cls := "panic:close-of-closed-channel"
+		if !strings.Contains(p, "close of closed") {
+			cls = "panic:send-on-closed-channel:" + map[bool]string{true: "next-after-end", false: "ended-during-delivery"}[r.inflightAfterEnd]
+		}
+		viol("C13", cls, "goroutine panicked: "+p)
 	}
 	if mw != nil && len(r.panics) == 0 {
 		r.finish(mw, faults, closed, viol, serverNexts, unsubbed)
+		if out.Mismatch == "" && r.endMismatch != "" {
+			out.Mismatch = "end state: " + r.endMismatch
+		}
 	}
+	r.cleanup()
 	return out
 }
 
